@@ -50,7 +50,7 @@ def unwindOne : List (Val N) → List (Val N)
   | .arr ys :: xs => ys ++ unwindOne xs
   | x :: xs => x :: unwindOne xs
 
-def upperStr (s : String) : String := s.map Char.toUpper
+def upperStr (s : String) : String := String.ofList (s.toList.map Char.toUpper)
 
 /-- CONCAT as the property states it (non-NULL arguments only); the Go code prints `<nil>` for a
     NULL argument — known finding KF-concat-null, switch `concatNilText`. -/
